@@ -267,7 +267,7 @@ Proof.
   revert start b out; induction fuel as [|f IH]; intros start b out H H1 H2; cbn [collect_handle_uuid_tuples] in H.
   - mon. repeat split; lia.
   - cbv zeta in H.
-    destruct (((start <=? e) || (e =? invalid_index)) && (start <? number_of_attributes c)
+    destruct ((start <? number_of_attributes c) && (handle_by_index c start <=? e)
               && ((if only16 then 4 else 18) <=? out_end - out)) eqn:Ec.
     + apply andb_true_iff in Ec. destruct Ec as [_ Ec]. apply N.leb_le in Ec.
       mon. destruct (Bool.eqb only16 (negb (attr_uuid a =? internal_128bit_uuid))).
@@ -285,7 +285,8 @@ Lemma find_information_good c pdu b out_size r :
 Proof.
   intros Ho Hop. unfold handle_find_information. intros H. mon. destruct c0 as [f|[sh eh]]; mon.
   - eapply check_range_failed; eauto. lia.
-  - replace (negb (1 =? out_size)) with true in * by (symmetry; apply negb_true_iff, N.eqb_neq; lia).
+  - brk; [mon; eapply error_response_err; eauto; lia|].
+    replace (negb (1 =? out_size)) with true in * by (symmetry; apply negb_true_iff, N.eqb_neq; lia).
     mon.
     match goal with X : collect_handle_uuid_tuples _ _ _ _ _ _ _ _ = Some ?p |- _ =>
       destruct p as [b' out']; apply collect_tuples_inv in X; [destruct X as (I1 & I2 & I3)|lia|lia] end.
@@ -302,8 +303,9 @@ Proof.
   revert index b cur found; induction ss as [|s t IH]; intros index b cur found H Hc; cbn [services_by_group] in H.
   - mon. lia.
   - cbv zeta in H.
-    destruct ((negb (si =? invalid_index) && (si <=? index)) && ((index <=? ei) || (ei =? invalid_index))).
-    + mon. destruct (access_compare_value c st cid a value).
+    destruct ((negb (si =? invalid_index) && (si <=? index)) && (handle_by_index c index <=? ei)).
+    + mon. destruct (negb (attr_uuid a =? uuid_primary_service)); [apply IH in H; auto|].
+      destruct (access_compare_value c st cid a value).
       * apply IH in H; auto.
       * apply IH in H; auto.
       * destruct (4 <=? e - cur) eqn:E4.
@@ -344,13 +346,13 @@ Proof.
     set (m := len l mod 256) in *; lia.
 Qed.
 
-Lemma all_attributes_inv fuel c st cid f k e index last st' k' :
-  all_attributes fuel c st cid f k e index last = Some (st', k') ->
+Lemma all_attributes_inv fuel c st cid f k e index last eh st' k' :
+  all_attributes fuel c st cid f k e index last eh = Some (st', k') ->
   2 <= co_cur k -> co_cur k <= e -> 2 <= co_cur k' /\ co_cur k' <= e.
 Proof.
   revert st k index; induction fuel as [|n IH]; intros st k index H H1 H2; cbn [all_attributes] in H.
   - mon. lia.
-  - destruct (index <=? last); [|mon; lia].
+  - destruct ((index <=? last) && (handle_by_index c index <=? eh)); [|mon; lia].
     mon. destruct (uuid_filter_match f a).
     + mon. apply collect_attribute_inv in E0; auto. apply IH in H; lia.
     + apply IH in H; auto.
@@ -361,7 +363,7 @@ Lemma read_by_type_good c st cid pdu b out_size st' r :
 Proof.
   intros Ho Hop. unfold handle_read_by_type. rewrite Hop. intros H. mon. destruct c0 as [f|[sh eh]]; mon.
   - eapply check_range_failed; eauto. lia.
-  - match goal with X : all_attributes _ _ _ _ _ _ _ _ _ = Some (_, ?k) |- _ =>
+  - match goal with X : all_attributes _ _ _ _ _ _ _ _ _ _ = Some (_, ?k) |- _ =>
       apply all_attributes_inv in X; [|cbn [co_cur]; lia|cbn [co_cur]; lia]; destruct X as [I1 I2];
       assert ((co_cur k - 2) mod 256 <= co_cur k - 2) by (apply N.mod_le; lia);
       set (m := (co_cur k - 2) mod 256) in * end.
@@ -394,8 +396,8 @@ Proof.
   revert k; induction ss as [|s t IH]; intros k H H1 H2; cbn [collect_primary_services] in H.
   - mon. repeat split; lia.
   - cbv zeta in H.
-    destruct (negb (pc_stopped k) && (negb (si =? invalid_index) && (si <=? pc_index k))
-              && ((pc_index k <=? eh) || (eh =? invalid_index))).
+    destruct (negb (pc_stopped k) && negb (s_secondary s) && (negb (si =? invalid_index) && (si <=? pc_index k))
+              && (handle_by_index c (pc_index k) <=? eh)).
     + mon.
       match goal with X : read_primary_service_response _ _ _ _ _ _ _ = Some (_, _) |- _ =>
         apply read_primary_service_response_inv in X; [destruct X as (I1 & I2 & I3)|lia|lia] end.
